@@ -1,7 +1,7 @@
 """C18 - validators accept exactly the DBus grammar; constructors enforce them."""
 import time
 
-from ..engine import Spec, assume, check, reached, HarnessError
+from ..engine import Spec, assume, check, reached, HarnessError, notrace, decode_choice, encode_choice
 from ..runner import Ob, replay_subprocess
 
 PROPERTY = 'C18'
@@ -20,10 +20,9 @@ EXPLANATION = (
     'solver-chosen members of each language and the 255/256 boundary). ctor: the message constructors run '
     'under CrossHair with each validator replaced by a spy whose verdict is a symbolic boolean; a message '
     'exists iff every name it carries was shown to the right validator and accepted.')
-BOUNDS = {'quick': 'lang: strings of length <= 300, characters 0..0x2FFFF; ctor: 4 constructors, name '
+BOUNDS = {'quick': 'lang: strings of length <= 300, characters 0..0x2FFFF; alpha (cross-check): every string of length <= 3 over a 16-character class alphabet; ctor: 4 constructors, name '
                    'arguments None / empty / non-empty, verdict per validator call symbolic',
-          'thorough': 'as quick, plus bounded CrossHair run of the real validators on symbolic strings of '
-                      'length <= 3 against the grammar predicate (bug hunting cross-check of the translator)'}
+          'thorough': 'alpha: length <= 4'}
 ASSUMPTIONS = [
     'z3 character range stops at 0x2FFFF; code points above behave like any other non-ASCII character in '
     'all five validators (no construct distinguishes them)',
@@ -44,6 +43,9 @@ SAMPLES = [
 ]
 
 
+ALPHA = ['a', 'Z', '0', '9', '_', '.', '-', ':', '/', ' ', '\u00e9', '\u0663', '[', '`', '\n', '\x00']
+
+
 def obligations(tier):
     obs = []
     for ctor in ('call', 'return', 'error', 'signal'):
@@ -51,12 +53,13 @@ def obligations(tier):
                       functions=CFUNCS, bounds='names: None/empty/non-empty selectors; verdicts symbolic'))
     obs.append(Ob('ctor:path-real', 'pathhdr', {}, timeout=60, twin=True, functions=CFUNCS,
                   bounds='object path: selector over 12 strings, real validator (no spy)'))
-    if tier == 'thorough':
-        for v in VALIDATORS:
-            for n in (1, 2, 3):
-                obs.append(Ob('bounded:%s:len%d' % (v, n), 'lang', {'validator': v, 'kind': 'both', 'n': n},
-                              timeout=240, path_timeout=30, twin=False, functions=('txdbus.marshal:' + v,),
-                              bounds='string length %d, any characters' % n))
+    # cross-check of the translator: every string up to length 3 / 4 over one representative per character class
+    nmax = 3 if tier == 'quick' else 4
+    for v in VALIDATORS:
+        for n in range(0, nmax + 1):
+            obs.append(Ob('alpha:%s:len%d' % (v, n), 'alpha', {'validator': v, 'n': n}, timeout=900, path_timeout=60,
+                          twin=(n == 2), functions=('txdbus.marshal:' + v,),
+                          bounds='every string of length %d over a %d-character class alphabet (symbolic selector)' % (n, len(ALPHA))))
     return obs
 
 
@@ -96,6 +99,26 @@ def build(family, p):
             reached()
         h.__name__ = 'lang'
         return Spec(h, [('s', str)], witnesses=[])
+    if family == 'alpha':
+        from ..regtrans import spec_predicates
+        name, n = p['validator'], p['n']
+        pred = spec_predicates()[name]
+        fn = getattr(marshal, name)
+
+        def h(code):
+            idx = decode_choice(code, [len(ALPHA)] * n) if n else []
+            if not n:
+                assume(code == 0)
+            with notrace():
+                s_ = ''.join(ALPHA[i] for i in idx)
+                want = pred(s_)
+                got = _outcome(fn, s_)
+                check(got in ('accept', 'reject'), 'validator raised something other than MarshallingError')
+                check((got == 'accept') == want, 'validator disagrees with the DBus grammar on a short string')
+            reached()
+        h.__name__ = 'alpha'
+        wit = [(0,)] if not n else [(encode_choice([(i * 5 + j) % len(ALPHA) for j in range(n)], [len(ALPHA)] * n),) for i in range(4)]
+        return Spec(h, [('code', int)], witnesses=wit)
     if family == 'pathhdr':
         POOL = ['/', '/a', '/a/b', '', 'a', '//', '/a/', '/a//b', '/a b', '/-', '/\u00e9',
                 '/org/freedesktop/DBus/Local']
